@@ -91,6 +91,7 @@ class Step(object):
         self.snap = Snap(st["snap"])
         self.before = before
         self.slept = st.get("slept", 0)
+        self.opts = st.get("opts")         # digest of every watcher's option values (real Watcher.options()), or None
 
     def kind(self):
         return self.op[0]
@@ -249,7 +250,8 @@ def c05(sc, V):
             od = any(c.get("on_demand") for c in sc["watchers"]) and any(x.kind() == "sockev" and x.op[1] for x in V[:s.n])
             f.append({"sig": "on-demand-start-overlap" if od else "event-loop-stalled", "step": s.n,
                       "msg": "event loop blocked for %d ms in one step" % s.slept})
-        if s.kind() == "req" and s.cmd() in ("status", "list", "numprocesses", "numwatchers", "options", "globaloptions", "stats") \
+        if s.kind() == "req" and s.cmd() in ("status", "list", "numprocesses", "numwatchers", "options", "get", "globaloptions",
+                                             "stats", "dstats", "listsockets") \
                 and not s.before.blocked and not _ctl_closed_before(V, s.n) and s.op[1].get("msg_type") != "cast":
             if len(s.of("rep")) != 1:
                 f.append({"sig": "readonly-not-answered-at-once", "step": s.n, "msg": "%s got %d replies in its own step" % (s.cmd(), len(s.of("rep")))})
@@ -372,11 +374,15 @@ def c11(sc, V):
         same = (b.names == a.names and [(w["name"], w["status"], w["np"], w["procs"]) for w in b.watchers] ==
                 [(w["name"], w["status"], w["np"], w["procs"]) for w in a.watchers] and
                 b.stopping == a.stopping and b.slot == a.slot)
-        if eff or not same:
-            sig = "refused-request-had-effect"
+        # "… watchers, options, statuses, worker pids exactly as they were": the option values of every watcher, read through
+        # the real Watcher.options() after each step (all of them: cmd, env, uid, … too)
+        prev = V[s.n - 1].opts if s.n > 0 else None
+        opts_changed = prev is not None and s.opts is not None and prev != s.opts
+        if eff or not same or opts_changed:
+            sig = "refused-request-had-effect" if (eff or not same) else "refused-request-changed-options"
             p = s.props()
             # F4 is about a *later* option failing after earlier ones were applied: it needs at least two options
-            if s.cmd() == "set" and isinstance(p.get("options"), dict) and len(p["options"]) >= 2 and \
+            if s.cmd() == "set" and isinstance(p.get("options"), dict) and len(p["options"]) >= 2 and eff and \
                     all(l[0] == "ev" and l[2] == "updated" for l in eff):
                 sig = "set-partially-applied"
             f.append({"sig": sig, "step": s.n, "msg": "%s was refused (errno %s) but changed the daemon" % (s.cmd(), errs[0][4])})
@@ -414,6 +420,15 @@ def c15(sc, V):
                         f.append({"sig": "stats-disagrees", "step": s.n,
                                   "msg": "stats describes the watchers %r, the directory has %r" % (got, lows)})
                 p = s.props()
+                if s.cmd() in ("options", "get") and r[3] == "ok" and body.startswith("options=") and isinstance(p.get("name"), str):
+                    # the request reached the watcher of that name (whatever the letter case) and no other: the numprocesses
+                    # it reports is that watcher's
+                    got = dict(x.split(":", 1) for x in body[len("options="):].split(";") if ":" in x)
+                    mine = [w for w in a.watchers if w["name"].lower() == p["name"].lower()]
+                    if "numprocesses" in got and (len(mine) != 1 or str(mine[0]["np"]) != got["numprocesses"]):
+                        f.append({"sig": "options-of-another-watcher", "step": s.n,
+                                  "msg": "%s %r reports numprocesses=%s, the watcher has %r" %
+                                         (s.cmd(), p["name"], got["numprocesses"], [w["np"] for w in mine])})
                 if s.cmd() == "add" and r[3] == "ok" and isinstance(p.get("name"), str):
                     if p["name"].lower() not in a.names:
                         f.append({"sig": "add-ok-but-absent", "step": s.n, "msg": "add %r answered ok but no such watcher" % p["name"]})
@@ -438,7 +453,8 @@ def c15(sc, V):
                         if r[4] == "3" and any(hit(wb["name"]) for wb in s.before.watchers):
                             f.append({"sig": "case-variant-not-found", "step": s.n,
                                       "msg": "%s %r not found although a watcher matches" % (s.cmd(), p["name"])})
-                if s.cmd() in ("status", "numprocesses", "list", "incr", "decr", "kill", "signal", "rm", "set", "reload") and \
+                if s.cmd() in ("status", "numprocesses", "list", "incr", "decr", "kill", "signal", "rm", "set", "reload",
+                               "options", "get") and \
                         isinstance(p.get("name"), str) and p["name"].lower() in s.before.names and r[4] == "3" and \
                         _has_required(s.cmd(), p):
                     f.append({"sig": "case-variant-not-found", "step": s.n, "msg": "%s %r not found although it exists" % (s.cmd(), p["name"])})
@@ -455,7 +471,17 @@ def _has_required(cmd, p):
         return "signum" not in p
     if cmd in ("incr", "decr"):
         return "nb" not in p or (isinstance(p["nb"], int) and not isinstance(p["nb"], bool))
+    if cmd == "get":
+        # errno 3 is also the answer to a key that is no option name
+        return isinstance(p.get("keys"), list) and all(isinstance(k, str) and k in WATCHER_OPTNAMES for k in p["keys"])
     return True
+
+
+# Watcher.optnames as documented (commands/options.py, watcher.py): the names `get` accepts
+WATCHER_OPTNAMES = ("numprocesses", "warmup_delay", "working_dir", "uid", "gid", "send_hup", "stop_signal", "stop_children",
+                    "shell", "shell_args", "env", "max_retry", "cmd", "args", "respawn", "graceful_timeout", "executable",
+                    "use_sockets", "priority", "copy_env", "singleton", "stdout_stream_conf", "on_demand", "stderr_stream_conf",
+                    "max_age", "max_age_variance", "close_child_stdin", "close_child_stdout", "close_child_stderr")
 
 
 # ------------------------------------------------------------------------------------------------ C18 (confinement)
